@@ -419,6 +419,20 @@ func placed(c tcase, res *result) error {
 		return err
 	}
 	defer r.Shutdown(context.Background())
+	// a history of resolutions on ONE Resolver (ConfReload.tla): the document is first resolved while every provider entry
+	// returns a plain literal, then the provider values change to the table of the case -- as before a configuration
+	// reload.  The second resolution must yield what the providers return NOW (seeded change C12-5 memoised them).
+	if len(curEnv) > 0 {
+		real := map[string]string{}
+		warm := map[string]string{}
+		for k, v := range curEnv {
+			real[k] = v
+			warm[k] = "warm-" + strings.ToLower(k)
+		}
+		setEnv(warm)
+		_, _ = r.Resolve(context.Background())
+		setEnv(real)
+	}
 	var got observation
 	conf, rerr := r.Resolve(context.Background())
 	var whole any
